@@ -217,6 +217,18 @@ def r17_2(ctx: Ctx) -> None:
         if v is NOC or not str(v).startswith("\\page") or not str(v).endswith("\n"):
             ctx.violation("R17.2", fi.short, f"page command {v!r}", fi.where(cmd[0]), "the separator between inputs is not a \\page line")
     ctx.floor("R17.2", 6)
+    # R17.3 inputs are read when assemble_rtf is called: no memoised reader on its call graph
+    from ..callgraph import CallGraph
+    cg = CallGraph(pm)
+    reach = cg.reachable(["assemble_rtf"])
+    for short in sorted(reach):
+        f2 = pm.funcs.get(short)
+        if f2 is None:
+            continue
+        for d in f2.decorators:
+            if d.split(".")[-1] in ("lru_cache", "cache"):
+                ctx.violation("R17.3", short, "memoised " + d, f2.where(), f"{short} (used by assemble_rtf) is memoised ({d}): a later call assembles the content a path had the first time it was read")
+    ctx.instance("R17.3", fi.where(), f"{len(reach)} function(s) on assemble_rtf's call graph, none memoised; input reads happen inside the call")
 
 
 def _anc(n, stop):
